@@ -62,21 +62,19 @@ def St.push (st : St) (t : Tok) : St := { st with toks := st.toks ++ [t], stack 
 
 def isBlank (c : Char) : Bool := c = ' ' || c = '\n'
 
-/-- `re.match(r'^[1-9]{1}(\.[0-9]+)?[eE]{1}$', token)` -/
+/-- `re.match(r'^([0-9]+\.?[0-9]*|\.[0-9]+)[eE]$', token)`: a decimal numeral — digits with an optional
+    point and optional fraction digits, or a point followed by digits — then exactly one `e`/`E`
+    (the greedy/backtracking search of `re` accepts exactly this language) -/
 def matchSN (t : List Char) : Bool :=
-  match t with
-  | d :: rest =>
-    if '1' ≤ d && d ≤ '9' then
-      match rest with
-      | [e] => e = 'e' || e = 'E'
-      | '.' :: more =>
-        -- one or more digits then a single e/E
-        let digs := more.takeWhile isDigit
-        let tl := more.dropWhile isDigit
-        !digs.isEmpty && (tl = ['e'] || tl = ['E'])
-      | _ => false
-    else false
+  let ip := t.takeWhile isDigit
+  match t.dropWhile isDigit with
   | [] => false
+  | c :: more =>
+    if c = '.' then
+      let fp := more.takeWhile isDigit
+      let tl := more.dropWhile isDigit
+      (!ip.isEmpty || !fp.isEmpty) && (tl = ['e'] || tl = ['E'])
+    else !ip.isEmpty && more.isEmpty && (c = 'e' || c = 'E')
 
 /-- the lexer mode (`inString`, `inPath`, `inRange`, `inError`; at most one is set at a time in
     the flows below; `inRange` can coexist with nothing else) -/
